@@ -23,7 +23,7 @@ must-analyses built on top want.
 from __future__ import annotations
 
 import ast
-from typing import Any, Callable, Dict, Iterable, List, Optional, Set, Tuple
+from typing import Any, Callable, Dict, FrozenSet, Iterable, List, Optional, Set, Tuple
 
 from .model import walk_local
 
@@ -407,3 +407,92 @@ def must_forward(cfg: CFG, entry_fact: bool, gen: Callable[[Node], bool], kill: 
         return f
 
     return solve_forward(cfg, entry_fact, transfer, lambda a, b: a and b, skip_exc=skip_exc)
+
+
+# ---------------------------------------------------------------------------
+# reaching definitions
+
+
+def node_defs(n: Node) -> Set[str]:
+    """Local names (re)bound at node n."""
+    out: Set[str] = set()
+    st = n.stmt
+    if st is None:
+        return out
+    if n.kind == "stmt":
+        if isinstance(st, ast.Assign):
+            for t in st.targets:
+                for e in _flat_names(t):
+                    out.add(e)
+        elif isinstance(st, (ast.AnnAssign, ast.AugAssign)):
+            if isinstance(st.target, ast.Name) and not (isinstance(st, ast.AnnAssign) and st.value is None):
+                out.add(st.target.id)
+        elif isinstance(st, (ast.FunctionDef, ast.AsyncFunctionDef, ast.ClassDef)):
+            out.add(st.name)
+        elif isinstance(st, (ast.Import, ast.ImportFrom)):
+            for a in st.names:
+                out.add((a.asname or a.name).split(".")[0])
+        for x in walk_local(st):
+            if isinstance(x, ast.NamedExpr) and isinstance(x.target, ast.Name):
+                out.add(x.target.id)
+    elif n.kind == "test":
+        if isinstance(st, (ast.For, ast.AsyncFor)):
+            for e in _flat_names(st.target):
+                out.add(e)
+        if n.cond is not None:
+            for x in walk_local(n.cond):
+                if isinstance(x, ast.NamedExpr) and isinstance(x.target, ast.Name):
+                    out.add(x.target.id)
+    elif n.kind == "with":
+        for it in st.items:  # type: ignore[attr-defined]
+            if it.optional_vars is not None:
+                for e in _flat_names(it.optional_vars):
+                    out.add(e)
+    elif n.kind == "handler":
+        if getattr(st, "name", None):
+            out.add(st.name)  # type: ignore[attr-defined]
+    return out
+
+
+def _flat_names(t: ast.AST):
+    if isinstance(t, ast.Name):
+        yield t.id
+    elif isinstance(t, (ast.Tuple, ast.List)):
+        for e in t.elts:
+            yield from _flat_names(e)
+    elif isinstance(t, ast.Starred):
+        yield from _flat_names(t.value)
+
+
+def reaching_defs(cfg: CFG, skip_exc: bool = True) -> Dict[int, Dict[str, FrozenSet[int]]]:
+    """IN[node id][var] = ids of the nodes whose definition of var may reach
+    the node.  Parameters are defined at the entry node (id of cfg.entry)."""
+    fn = cfg.fn
+    params: List[str] = []
+    if hasattr(fn, "args"):
+        a = fn.args
+        params = [x.arg for x in a.posonlyargs + a.args + a.kwonlyargs]
+        if a.vararg:
+            params.append(a.vararg.arg)
+        if a.kwarg:
+            params.append(a.kwarg.arg)
+    init = tuple(sorted((p, frozenset({cfg.entry.id})) for p in params))
+
+    def transfer(n: Node, f):
+        ds = node_defs(n)
+        if not ds:
+            return f
+        d = dict(f)
+        for v in ds:
+            d[v] = frozenset({n.id})
+        return tuple(sorted(d.items()))
+
+    def join(a, b):
+        da, db = dict(a), dict(b)
+        out = {}
+        for k in set(da) | set(db):
+            out[k] = da.get(k, frozenset()) | db.get(k, frozenset())
+        return tuple(sorted(out.items()))
+
+    IN = solve_forward(cfg, init, transfer, join, skip_exc=skip_exc)
+    return {i: dict(f) for i, f in IN.items()}
